@@ -10,9 +10,9 @@ func init() {
 		TrustedBase: []string{"extern contracts filepath.Rel / Clean / Join as uninterpreted lexical path functions relPath, relFails, cleanPath, joinedPath (spec/extern.gvc)", "fmt.Sprintf model for %v/%s of string operands", "fmt.Errorf returns a non-nil error"},
 		Assumptions: []string{"filepath.Rel(root, p) returns the lexical relative path of the cleaned arguments, so 'rel does not begin with a .. element' is 'p lies lexically inside root'", "os.PathSeparator == '/'"},
 		NotDecided:  []string{"that the returned text equals the file content byte for byte ([]byte -> string conversion is not modelled)", "symbolic links (the statement is about lexical containment)"}})
-	registerProp(&PropSpec{ID: "C14", Title: "String interpolation evaluates only the literal's own expressions, once", MinObls: 10, Classes: regexp.MustCompile(`^(post|inv|dec|pre|safe:(slice|index))`),
+	registerProp(&PropSpec{ID: "C14", Title: "String interpolation evaluates only the literal's own expressions, once", MinObls: 10, Classes: regexp.MustCompile(`^(post|inv|dec|pre|assert|safe:(slice|index))`),
 		TrustedBase: []string{"SMT-LIB string theory as the model of Go strings (byte sequences)", "extern contracts strings.Index (spec/extern.gvc)"},
-		NotDecided:  []string{"escape decoding in the lexer (lexValue) is covered by C08/C18 contracts, not here"}})
+		NotDecided:  []string{"what strconv.Unquote makes of the escape sequences (library); proved here: every string start reaches the string state, a single-quoted literal is unquoted with all its double quotes escaped"}})
 }
 
 func init() {
